@@ -162,6 +162,18 @@ func specC10(tier string, variant int) *SeqSpec {
 			s.Sweep = append(s.Sweep, probe(o))
 		}
 		s.Sweep = append(s.Sweep, probe())
+		// the same NAME watched in two databases is two watches: the connection watches ws in database 1
+		// (init), goes to database 0, watches ws there too, comes back; a change of either aborts EXEC
+		for _, mod := range [][]Op{{cs(1, "SELECT", "0"), cs(1, "SET", "ws", "changed-in-db0")}, {cs(1, "SELECT", "1"), cs(1, "SET", "ws", "changed-in-db1")}, {cs(1, "SELECT", "0"), cs(1, "RPUSH", "wl", "x")}, {cs(1, "SELECT", "1"), cs(1, "DEL", "wl")}, {cs(1, "SELECT", "0"), cs(1, "GET", "ws")}, {cs(1, "FLUSHALL")}} {
+			for _, order := range [][]Op{
+				{cs(0, "SELECT", "0"), cs(0, "WATCH", "ws", "wl"), cs(0, "SELECT", "1")},
+				{cs(0, "UNWATCH"), cs(0, "SELECT", "0"), cs(0, "WATCH", "ws", "wl"), cs(0, "SELECT", "1"), cs(0, "WATCH", "ws", "wl")},
+				{cs(0, "UNWATCH"), cs(0, "WATCH", "ws"), cs(0, "SELECT", "0"), cs(0, "WATCH", "ws", "wl"), cs(0, "WATCH", "ws")},
+			} {
+				seq := append(append([]Op{}, order...), mod...)
+				s.Sweep = append(s.Sweep, probe(seq...))
+			}
+		}
 		s.Depth = 1
 	}
 	return s
